@@ -26,6 +26,7 @@ type PropertySpec struct {
 	Replayers  map[string]string `json:"replayers"` // obligation-name prefix -> replayer
 	Sweep      []string          `json:"sweep"`      // packages whose every function is checked in bounds mode (index, slice, type assertion, explicit panic), no annotation needed
 	Bounded    []string          `json:"bounded"`   // bounded stand-ins (thorough tier)
+	BoundedQuick bool            `json:"bounded_in_quick"` // run the bounded stand-ins in the quick tier too (they carry known findings)
 	Assumed    []string          `json:"assumed"`   // assumed contracts the property relies on
 	Residue    string            `json:"residue"`
 	NeedsEmitted bool            `json:"needs_emitted"`
@@ -289,7 +290,7 @@ func (run *checkRun) execute(verbose bool) int {
 		rs := runStructural(w, rule)
 		run.extra = append(run.extra, rs...)
 	}
-	if run.tier == "thorough" {
+	if run.tier == "thorough" || spec.BoundedQuick {
 		for _, b := range spec.Bounded {
 			run.bounded = append(run.bounded, runBounded(w, b, run.seed))
 		}
